@@ -7,6 +7,8 @@ CONSTANTS
   MaxFrames = 3
   BufferOversized = FALSE
   NonceReuse = FALSE
+  AllowReconnect = FALSE
+  NoncePerSession = FALSE
   DupDeliver = FALSE
 INVARIANTS Reach_LimitDelivered
 
